@@ -33,6 +33,7 @@ var guardTable = []guardSpec{
 	{"multiparty.(Combiner).GenAdditiveShare", []string{"len(activesPoints)", "threshold"}, []token.Token{token.LSS, token.GTR}, []string{"C15"}, "fewer than t active parties must be refused"},
 	{"multiparty.(Combiner).GenAdditiveShare", []string{"slices.Contains", "ownPoint"}, []token.Token{token.NOT}, []string{"C15"}, "the caller must be one of the t points that are combined: a party outside them would multiply its share by t foreign factors and be told all went well"},
 	{"multiparty.(Combiner).GenAdditiveShare", []string{`re:slices\.Contains\((\w+)\[:\w+\], (\w+)\[\w+\]\)`}, nil, []string{"C15"}, "a point listed twice is one party, not two: fewer than t distinct parties must be refused"},
+	{"multiparty.(Combiner).GenAdditiveShare", []string{`re:slices\.Contains\(\w+, 0\)`}, nil, []string{"C15"}, "points that are distinct integers but congruent modulo one modulus of the ring (or a multiple of it) give a Lagrange factor with a zero residue: the set must be refused, the shares do not determine the secret there"},
 	{"ring.(SubRing).generateNTTConstants", []string{"Modulus", "NthRoot"}, []token.Token{token.NEQ}, []string{"C19", "C01"}, "a prime must be congruent to 1 modulo the root order (2N, 4N for the conjugate-invariant ring), not merely modulo 2N"},
 	{"core/rlwe.(Parameters).PiOverflowMargin", []string{"level", "0"}, []token.Token{token.LSS}, []string{"C04", "C19"}, "an evaluation key without P on parameters that have one is at P-level -1: the margin of an empty set of primes is the documented -1, not a panic"},
 	{"core/rlwe.CheckModuli", []string{"AllDistinct"}, nil, []string{"C19"}, "Q and P together are the RNS basis of QP: a prime present in both must be refused (each ring only checks its own chain)"},
